@@ -87,7 +87,11 @@ func (f *fixture) runGates(res *workerOut, addViol func(sig, what string, c case
 	res.Gates = len(gates)
 	res.GateHeights = len(heights)
 	inShapes := [][]int64{{}, {1000}}
-	outLists := [][]int64{{}, {900}, {1000}, {5000}, {1, 1 << 62}}
+	// small output lists, among them a negative amount at EVERY position of lists of 1..3
+	// outputs (value-conserving with the 1000 input and not)
+	outLists := [][]int64{{}, {900}, {1000}, {5000}, {1, 1 << 62},
+		{-1}, {1090, -90}, {-90, 1090}, {1000, -80}, {-80, 1000}, {0, -1},
+		{500, -90, 590}, {-90, 500, 590}, {500, 590, -90}, {1000, -1, 1}}
 	classes := map[string]int{}
 	for _, t := range allTypes() {
 		for _, h := range heights {
@@ -105,6 +109,21 @@ func (f *fixture) runGates(res *workerOut, addViol func(sig, what string, c case
 				for _, outVals := range outLists {
 					tx := f.mkTx(t.T, f.outputs(t.T, outVals), ins, h)
 					tx.SetReferences(refs)
+					if t.T == common2.CRCAppropriation {
+						// the state in which this type is acceptable: an appropriation is due,
+						// of the amount the first output carries, spent from the CR assets address
+						committee := f.node.Chain.GetCRCommittee()
+						committee.NeedAppropriation = true
+						if len(outVals) > 0 {
+							committee.AppropriationAmount = common.Fixed64(outVals[0])
+						}
+						crRefs := map[*common2.Input]common2.Output{}
+						for in, o := range refs {
+							o.ProgramHash = *f.node.Params.CRConfiguration.CRAssetsProgramHash
+							crRefs[in] = o
+						}
+						tx.SetReferences(crRefs)
+					}
 					inOK, outOK, feeOK, end, specOK := false, false, false, false, false
 					pan := ""
 					func() {
@@ -138,7 +157,12 @@ func (f *fixture) runGates(res *workerOut, addViol func(sig, what string, c case
 					}
 					res.GateAccepted++
 					om, im := mkSet(outVals), mkSet(inVals)
-					if om.Sum.Cmp(im.Sum) > 0 {
+					if om.HasNeg {
+						addViol("C01|negative-output-accepted|"+t.Name,
+							fmt.Sprintf("%s at height %d (%s) with %d input(s) worth %s and outputs %v — a negative amount — passes CheckTransactionInput, CheckTransactionOutput and SpecialContextCheck (end=%v)%s", t.Name, h, hs[h], len(inVals), im.Sum, outVals, end,
+								map[bool]string{true: " — the fee check is never reached", false: " and the fee check"}[end]),
+							caseA{Type: int(t.T), Name: t.Name, H: h, Outputs: outVals, Inputs: inVals, Shape: "gate"})
+					} else if om.Sum.Cmp(im.Sum) > 0 {
 						clause := "value-created|fee-check-skipped"
 						if !end {
 							clause = "value-created|plain"
